@@ -187,27 +187,30 @@ def run(ctx: Ctx, tier: str) -> Result:
     SIZE = term(ctx, cv, "self._VariableSetProcessor__var_cache.size") if False else None
     size_alts = ctx.expand.expand(ast.parse("self.__var_cache.size", mode="eval").body, cv)
     rels = list(tb.vars.rels)
-    need(len(rels) == 1, "check_var_count: expected one comparison, got %s" % rels)
-    a, b = rels[0]
-    size_t = a if "len(" in a or "size" in a or "cache" in a else b
-    max_t = b if size_t == a else a
-    if not max_t.endswith("max_variables"):
-        res.fail(Finding("C05.BUDGET", cv.qname, "<size ? max_variables>", cv.loc(), "the budget check does not compare against max_variables: %s vs %s" % (a, b)))
-    rv = Vars(); rv.rel(size_t, max_t, True)
-
-    def refb(w):
-        rel = w.relation(size_t, max_t)
-        if rel == "GT":
-            return False
-        if rel == "LT":
-            return True
-        return lambda got: got[0] == "return" and got[1] in (True, False)
-    table_rule(res, "C05.BUDGET", tb, rv, refb, "budget check false when cache size > max_variables, true when below")
-    from .common import identity_cache_field
-    if identity_cache_field(ctx) in size_t and size_t.startswith("len("):
-        res.ok("C05.BUDGET", {"size counted": size_t})
+    if len(rels) != 1:
+        res.fail(Finding("C05.BUDGET", cv.qname, "<cache size ? max_variables>", cv.loc(), "the budget check compares %d pairs of quantities (expected: number of "
+                         "cached variables against max_variables): the number of variables in a snapshot is not bounded" % len(rels)))
     else:
-        res.fail(Finding("C05.BUDGET", cv.qname, size_t, cv.loc(), "the budget counts `%s`, not the number of cached variables" % size_t))
+        a, b = rels[0]
+        size_t = a if "len(" in a or "size" in a or "cache" in a else b
+        max_t = b if size_t == a else a
+        if not max_t.endswith("max_variables"):
+            res.fail(Finding("C05.BUDGET", cv.qname, "<size ? max_variables>", cv.loc(), "the budget check does not compare against max_variables: %s vs %s" % (a, b)))
+        rv = Vars(); rv.rel(size_t, max_t, True)
+
+        def refb(w):
+            rel = w.relation(size_t, max_t)
+            if rel == "GT":
+                return False
+            if rel == "LT":
+                return True
+            return lambda got: got[0] == "return" and got[1] in (True, False)
+        table_rule(res, "C05.BUDGET", tb, rv, refb, "budget check false when cache size > max_variables, true when below")
+        from .common import identity_cache_field
+        if identity_cache_field(ctx) in size_t and size_t.startswith("len("):
+            res.ok("C05.BUDGET", {"size counted": size_t})
+        else:
+            res.fail(Finding("C05.BUDGET", cv.qname, size_t, cv.loc(), "the budget counts `%s`, not the number of cached variables" % size_t))
     gate = [c for c in t.calls_in(sf) if cv in t.resolve_call(c, sf).repo]
     recs = [c for c in t.calls_in(sf) if any(x.qname == VP + ".process_variable" for x in t.resolve_call(c, sf).repo)]
     if len(recs) != 1 or paths.enclosing_loops(p, recs[0], sf):
@@ -339,7 +342,11 @@ def run(ctx: Ctx, tier: str) -> Result:
                 res.ok("C05.WIRE", {tg.attr: src[0]})
             else:
                 res.fail(Finding("C05.WIRE", cc.qname, n, cc.loc(n), "limit %s is not read from key %s with its own default: %s" % (tg.attr, key, src)))
-    res.floor("collector limits wired", wired, 4)
+    wired_names = {n.targets[0].attr for n in t.nodes_in(cc, ast.Assign) if isinstance(n.targets[0], ast.Attribute) and n.targets[0].attr.startswith("max_")}
+    for lim in ("max_string_length", "max_collection_size", "max_variables", "max_var_depth"):
+        if lim not in wired_names:
+            res.fail(Finding("C05.WIRE", cc.qname, "<config.%s = ...>" % lim, cc.loc(), "the limit %s of a tracepoint is never applied to the collector configuration (the default always applies)" % lim))
+    res.floor("collector limits wired", wired, 3)
     vsp = p.cls(VSP)
     for prop in ("max_string_length", "max_collection_size", "max_var_depth"):
         g_ = vsp.lookup(prop)
